@@ -32,7 +32,8 @@ CONFIG = {
         "becomes the right-hand value' (C03's subject)",
     ],
     "assumptions": [
-        "target nodes are pairwise non-nested (paths like ** are outside the generator)",
+        "target nodes are pairwise non-nested (paths like ** are outside the generator) and lie in the left "
+        "document (a target inside the right-hand document - F-C11-5 - is judged, not modelled)",
         "the assumptions of C05",
     ],
 }
